@@ -751,12 +751,15 @@ func (p *MinQueriesPlanner) groupSelectionSet(ctx *PlanningContext, config *extr
 				})
 
 				// since the fragment can only refer to fields in the top level that are at
-				// the same location we need to add a new definition of the
-				locationFragments[location] = append(locationFragments[location], &ast.FragmentDefinition{
-					Name:          selection.Name,
-					TypeCondition: defn.TypeCondition,
-					SelectionSet:  selectionSet,
-				})
+				// the same location we need to add a new definition of the fragment; a fragment that is
+				// spread more than once still has a single definition
+				if locationFragments[location].ForName(selection.Name) == nil {
+					locationFragments[location] = append(locationFragments[location], &ast.FragmentDefinition{
+						Name:          selection.Name,
+						TypeCondition: defn.TypeCondition,
+						SelectionSet:  selectionSet,
+					})
+				}
 			}
 
 		case *ast.InlineFragment:
